@@ -389,11 +389,23 @@ func c08Run(c *core.Ctx, b core.Batch) {
 	for done := 0; done < p.N; {
 		env := &c08Env{c: c}
 		env.rig = newRig("svc", func(s *res.Service) { env.configure(s, r) })
+		// every other environment has a connection that refuses some event messages (as a NATS
+		// connection does for an oversized message or a full reconnect buffer): a refused publish
+		// is no failed apply, no-op change or invalid call - the listeners are still told
+		flaky := done/60%2 == 1
+		if flaky {
+			env.rig.C.FailPublish = func(subject string, n int) error {
+				if strings.HasPrefix(subject, "event.") && n%3 == 0 {
+					return errors.New("injected publish failure")
+				}
+				return nil
+			}
+		}
 		if err := env.rig.start(); err != nil {
 			c.Inconclusive("start: " + err.Error())
 			return
 		}
-		cfgDesc := map[string]interface{}{"apply_handlers": env.present, "listeners": env.nlisten}
+		cfgDesc := map[string]interface{}{"apply_handlers": env.present, "listeners": env.nlisten, "connection_refuses_some_events": flaky}
 		for k := 0; k < 60 && done < p.N; k++ {
 			done++
 			// script
